@@ -276,23 +276,22 @@ rule!(array -> Value, {
     map(delimited(char('['), cut(body),ws(char(']'))), Into::into)
 });
 
+// "( e )" is grouping; "( )", "( e , )" and "( e , e ... )" are tuples. Whatever stands between the
+// parentheses is parsed exactly once (it used to be parsed up to three times per nesting level:
+// as a group, as a value and as a tuple member, i.e. exponential time in the nesting depth).
 rule!(tuple -> Value, {
-    let body = map_opt(
-        pair(many0(terminated(
-            op_0,
-            ws(char(','))
-        )),opt(op_0)),
-        |(mut ary,last)|{
-            if ary.is_empty() && last.is_some() {
-                return None
-            }
-            if let Some(v) = last {
-                ary.push(v);
-            }
-            Some(ary)
-        }
-    );
-    map(map(delimited(char('('), body,ws(char(')'))), Arc::new), Value::Tuple)
+    map_opt(
+        delimited(
+            char('('),
+            pair(separated_list0(ws(char(',')), op_0), opt(ws(char(',')))),
+            ws(char(')')),
+        ),
+        |(mut items, trailing)| match (items.len(), trailing.is_some()) {
+            (0, true) => None,
+            (1, false) => Some(items.remove(0)),
+            _ => Some(Value::Tuple(Arc::new(items))),
+        },
+    )
 });
 
 rule!(value -> Value, {
@@ -309,11 +308,7 @@ rule!(value -> Value, {
 });
 
 rule!(op_value -> Value, {
-    alt((
-        delimited(char('('), ws(op_0), ws(char(')'))),
-        delimited(char('('), ws(value), ws(char(')'))),
-        value,
-    ))
+    value
 });
 
 rule!(op_index -> (Span<'a>,Vec<Value>), {
